@@ -11,7 +11,7 @@ func c04Params() GenParams {
 func TestVerif_C04_model(t *testing.T) {
 	runHistoryProperty(t, "C04", "model",
 		"rapid-generated histories of 4-40 engine ops over 3 indexes x 8 ids (+batch/evolved ids), all metric x precision configs, interpreted against the real engine and a reference map-of-records model; after EVERY op the full read-out (cursor ids, count, VGet/VGetMany of every id ever used, index info/configs, KV, full edge history) must equal the model; non-trivial = history re-adds a deleted id, or has a batch on an index that already handed out >= efConstruction ids (parallel insert path; some efConstruction-8 indexes are warmed up with 9 vectors), or runs maintenance after a delete",
-		c04Params(), HistoryMode{CheckEveryOp: true}, 300, 20000,
+		c04Params(), HistoryMode{CheckEveryOp: true}, 1000, 30000,
 		func(l map[string]bool) bool {
 			return l["re-add-of-deleted-id"] || l["batch-on-parallel-path"] || l["maintenance-after-delete"]
 		})
